@@ -40,7 +40,7 @@ func init() {
 	})
 	Register(&Rule{
 		Name:  "R-VERIFY-EXEMPT",
-		Props: []string{"C06", "C01"},
+		Props: []string{"C06", "C01", "C05", "C17"},
 		Min:   1,
 		Doc: "the sender's comparison of its own hash with the receiver's last-verified hash is skipped only for the enumerated reasons: verification switched off by the ResumeVerify option, no hash algorithm, " +
 			"the receiver reporting no hash, nothing to verify (index out of range / no bitmap). A condition derived from any other option or state in front of the verification is a new way to trust a damaged file",
